@@ -699,10 +699,13 @@ def sequence_of_docs(ctx, left, docs, right, dangle=False, force_break=False):
 
         if is_commented(doc):
             comment_str = doc.annotation.value
+            # The dangling comma of a one-element tuple must come
+            # before an end-of-line comment, not after it.
+            needs_comma = not last or dangle
             # Try to fit the comment at the end of the same line.
             flat_version = concat([
                 doc,
-                COMMA if not last else NIL,
+                COMMA if needs_comma else NIL,
                 '  ',
                 commentdoc(comment_str),
                 HARDLINE if not last else NIL
@@ -714,7 +717,7 @@ def sequence_of_docs(ctx, left, docs, right, dangle=False, force_break=False):
                 commentdoc(comment_str),
                 HARDLINE,
                 doc,
-                COMMA if not last else NIL,
+                COMMA if needs_comma else NIL,
                 HARDLINE if not last else NIL
             ])
             parts.append(
@@ -732,7 +735,7 @@ def sequence_of_docs(ctx, left, docs, right, dangle=False, force_break=False):
                     concat([COMMA, LINE])
                 )
 
-    if dangle:
+    if dangle and not (docs and is_commented(docs[-1])):
         parts.append(COMMA)
 
     outer = (
